@@ -65,12 +65,15 @@ CHECKS = {
          "they are exercised by the same runs).",
          "Lean 4 proof (model = grammar specification for all byte strings) + differential correspondence of the model with the code", "DESIGN.md §5 C05"),
  "C04": ("Character-level Lean model of all renderings (dynamically_format_decimal with its three notations, format_full_scale and zero padding, {:e}/{:E}, dotless exponent form, "
-         "FullScaleFormatter, scientific, engineering, pad_integral) compared TEXT-EXACTLY with the real code; every produced text is read back by the grammar specification of C05 and by the real "
-         "parser and must give the same value, and the identical (int, scale) outside the exemptions the statement names; Display length bound. Kernel-checked so far: pad_integral without flags "
-         "adds only the sign; the round-trip theorems parse(render d) = d are listed as open in DESIGN.md. One known finding (plain notation with negative scale) and one fixed defect (scientific zero).",
-         "PARTIAL: the round trip is established per generated input through the verified-style chain model-text = impl-text and grammar-spec(text) = d, not yet as a Lean theorem for all decimals. "
-         "Trusted: Lean kernel, extractor, harness/driver, pad_integral model.",
-         "Lean 4 executable model (text-exact correspondence) + grammar-spec oracle; partial proof", "DESIGN.md §5 C04"),
+         "FullScaleFormatter, scientific, engineering, pad_integral) compared TEXT-EXACTLY with the real code. Kernel-checked for ALL decimals (scale an i64, fewer than 2^64 digits): the text of "
+         "to_scientific_notation, to_plain_string (scale >= 0), {:e}, {:E} and Display (every notation it can choose, any thresholds and padding limit) is read back by the model of the real parser "
+         "(= the grammar, by C05_parse_eq_spec) as the identical (int, scale) pair; Display of an integer written out with its zeros reads back with scale 0 and the same value (the exemption the "
+         "statement names) - theorems C04_scientific_roundtrip, C04_plain_roundtrip, C04_exp_roundtrip, C04_display_roundtrip, C04_display_value, C04_display_identical_of_nonneg_scale, built on the "
+         "canonical-numeral lemma specParse_canonical. Engineering notation, the reference-view entry points and the Display length bound are established per generated input (grammar oracle + "
+         "real parser). One known finding (plain notation with negative scale) and one fixed defect (scientific zero).",
+         "PARTIAL only for engineering notation and the length bound (per generated input). Trusted: Lean kernel, the character-level model's tie to the code (text-exact differential), extractor, "
+         "harness/driver, pad_integral model.",
+         "Lean 4 proof (round trip of scientific/plain/{:e}/{:E}/Display for all decimals) + text-exact correspondence of the formatting model with the code", "DESIGN.md §5 C04"),
  "C16": ("Character-level Lean model of precision formatting ({:.N}, {:.Ne}, {:.NE}: round_ascii_digits with carry past nines, integer+fraction / no-integer layouts, zero right-padding with "
          "FMT_MAX_INTEGER_PADDING, exponent adjustment) and of pad_integral (sign, '+', width, fill, alignment, '0'), compared text-exactly with the real code over every flag combination; the "
          "unflagged text is read by the grammar specification and must equal the declarative rounding of C06/C07 with exactly N digits; flags must equal pad_integral applied to the implementation's "
